@@ -71,7 +71,24 @@ func mIsRoot(c *mCfg, m string) bool {
 	return false
 }
 
+// mLabelFrom is the label by which loader names module m: Spell["loader>m"] = "rel" makes this one
+// loader use a label relative to its own package
+func mLabelFrom(c *mCfg, loader, m string) string {
+	// (only the root package "p0" can name a helper relative to itself: ".." is not allowed)
+	if loader == "p0" && c.Spell[loader+">"+m] == "rel" && !mIsRoot(c, m) && c.Kinds[m] != "nofetch" {
+		return "lib:" + m + ".dawn"
+	}
+	return mLabel(c, m)
+}
+
 func mLabel(c *mCfg, m string) string {
+	if m == "p0" && mIsRoot(c, m) {
+		// the root package
+		if c.Spell[m] == "short" {
+			return "//"
+		}
+		return "//:BUILD.dawn"
+	}
 	if mIsRoot(c, m) {
 		if c.Spell[m] == "short" {
 			return "//" + m
@@ -102,7 +119,7 @@ func mWriteTree(dir string, c *mCfg) error {
 			b.WriteString("def (:\n")
 		}
 		for _, d := range loads {
-			fmt.Fprintf(&b, "load(%q, \"v_%s\")\n", mLabel(c, d), d)
+			fmt.Fprintf(&b, "load(%q, \"v_%s\")\n", mLabelFrom(c, m, d), d)
 		}
 		if bad[m] {
 			fmt.Fprintf(&b, "fail(\"bad module %s\")\n", m)
@@ -111,7 +128,9 @@ func mWriteTree(dir string, c *mCfg) error {
 		fmt.Fprintf(&b, "parse_flag(\"f_%s\", default=\"x\")\n", m)
 		fmt.Fprintf(&b, "@target(name=\"t_%s\")\ndef _t_%s():\n    pass\n", m, m)
 		var path string
-		if mIsRoot(c, m) {
+		if m == "p0" && mIsRoot(c, m) {
+			path = filepath.Join(dir, "BUILD.dawn")
+		} else if mIsRoot(c, m) {
 			path = filepath.Join(dir, m, "BUILD.dawn")
 		} else {
 			path = filepath.Join(dir, "lib", m+".dawn")
@@ -158,6 +177,11 @@ func mNames(c *mCfg) map[string]string {
 			// every spelling of a package's build file names the same module
 			for _, sp := range []string{"//" + m, "//" + m + ":BUILD.dawn", "module://" + m, "module://" + m + ":BUILD.dawn"} {
 				names[sp] = m
+			}
+			if m == "p0" {
+				for _, sp := range []string{"//", "//:BUILD.dawn", "module://", "module://:BUILD.dawn"} {
+					names[sp] = m
+				}
 			}
 		}
 	}
